@@ -24,6 +24,52 @@ theorem Cell.leaf_repr_inj (H : List UInt8 → List UInt8) {a b : List Bool} (hl
   simp only [List.cons.injEq] at h
   exact Bits.toppedUp_inj_of_length_eq hl h.2.2
 
+@[simp] theorem Cell.depthsO_length (refs : List Cell) : (Cell.depthsO refs).length = 2 * refs.length := by
+  induction refs with
+  | nil => rfl
+  | cons r rs ih => simp [Cell.depthsO, ih]; omega
+
+theorem Cell.hashesO_length (H : List UInt8 → List UInt8) (hlen : ∀ x, (H x).length = 32) (refs : List Cell) :
+    (Cell.hashesO H refs).length = 32 * refs.length := by
+  induction refs with
+  | nil => rfl
+  | cons r rs ih => simp [Cell.hashesO, ih, Cell.hashO_eq_H_reprO, hlen]; omega
+
+theorem Cell.hashesO_inj (H : List UInt8 → List UInt8) (hlen : ∀ x, (H x).length = 32) :
+    ∀ (a b : List Cell), a.length = b.length → Cell.hashesO H a = Cell.hashesO H b → a.map (Cell.hashO H) = b.map (Cell.hashO H)
+  | [], [], _, _ => rfl
+  | [], _ :: _, h, _ => by simp at h
+  | _ :: _, [], h, _ => by simp at h
+  | x :: xs, y :: ys, hl, h => by
+    simp only [Cell.hashesO] at h
+    have h1 := List.append_inj h (by rw [Cell.hashO_eq_H_reprO, Cell.hashO_eq_H_reprO, hlen, hlen])
+    simp only [List.map_cons, h1.1, List.cons.injEq, true_and]
+    exact Cell.hashesO_inj H hlen xs ys (by simpa using hl) h1.2
+
+/-- The representation of an ordinary cell determines its bits and the hashes of its references (`H` has 32-byte
+outputs; at most 1023 bits and 4 refs): two cells differing in any bit, in the number of refs or in the hash of any
+ref have different representations. -/
+theorem Cell.reprO_ordinary_inj (H : List UInt8 → List UInt8) (hlen : ∀ x, (H x).length = 32) (bits bits' : List Bool)
+    (refs refs' : List Cell) (hb : bits.length ≤ 1023) (hb' : bits'.length ≤ 1023) (hr : refs.length ≤ 4) (hr' : refs'.length ≤ 4)
+    (h : (Cell.ordinary bits refs).reprO H = (Cell.ordinary bits' refs').reprO H) :
+    bits = bits' ∧ refs.length = refs'.length ∧ refs.map (Cell.hashO H) = refs'.map (Cell.hashO H) ∧
+      Cell.depthsO refs = Cell.depthsO refs' := by
+  simp only [Cell.ordinary, Cell.reprO, reprNoRefs, List.cons_append, List.cons.injEq] at h
+  obtain ⟨hd1, hd2, hrest⟩ := h
+  have hn : refs.length = refs'.length := by
+    have := congrArg UInt8.toNat hd1
+    simp [d1, UInt8.toNat_ofNat'] at this
+    omega
+  have hdd : (bits.length + 7) / 8 + bits.length / 8 = (bits'.length + 7) / 8 + bits'.length / 8 := by
+    have := congrArg UInt8.toNat hd2
+    simp [d2, UInt8.toNat_ofNat'] at this
+    omega
+  have h1 := List.append_inj hrest (by
+    simp only [List.length_append, Bits.toppedUp_length, Cell.depthsO_length]
+    omega)
+  have h2 := List.append_inj h1.1 (by rw [Bits.toppedUp_length, Bits.toppedUp_length]; omega)
+  exact ⟨Bits.toppedUp_inj hb hb' hdd h2.1, hn, Cell.hashesO_inj H hlen _ _ hn h1.2, h2.2⟩
+
 namespace Wallet
 open Tongo.Bits
 
